@@ -25,23 +25,37 @@ Definition scale_crossing (L : nat) (c : dcrossing) : dcrossing :=
 Definition shift_crossing (k : nat) (c : dcrossing) : dcrossing :=
   {| c_factors := map (Nat.add k) (c_factors c); c_first := c_first c; c_chunk := c_chunk c; c_mult := c_mult c |}.
 
+(** an inner constraint applies within every group: its trial windows are repeated per group *)
+Definition repeat_constraint (k To Ti : nat) (c : dconstraint) : dconstraint :=
+  {| k_kind := k_kind c; k_factor := k + k_factor c; k_level := k_level c;
+     k_windows := flat_map (fun g => map (fun w => (g * Ti + fst w, g * Ti + snd w)) (k_windows c)) (seq 0 To) |}.
+
 Definition nest_sem (So Si : sem) : sem :=
   {| s_trials := s_trials So * s_trials Si;
      s_factors := map (fun p => scale_factor (s_trials Si) (crossed_in So (fst p)) (snd p)) (index_list (s_factors So))
                   ++ s_factors Si;
      s_crossings := map (scale_crossing (s_trials Si)) (s_crossings So)
                     ++ map (shift_crossing (length (s_factors So))) (s_crossings Si);
-     s_constraints := [] |}.
+     s_constraints := map (repeat_constraint (length (s_factors So)) (s_trials So) (s_trials Si)) (s_constraints Si) |}.
 
-(** the guard: non-derived factors of sustain count 1, no constraints, no preamble trials
-    (crossings start at trial 0), outer crossings over outer factors, inner crossing chunks
-    dividing the inner trial count (no partial last chunk inside a group) *)
+(** the guard: non-derived factors of sustain count 1, no outer constraints, inner constraints
+    of the run-length / count kinds (AtMostKInARow, AtLeastKInARow, ExactlyKInARow, ExactlyK)
+    with windows inside the inner block, no preamble trials (crossings start at trial 0),
+    outer crossings over outer factors, inner crossing chunks dividing the inner trial count
+    (no partial last chunk inside a group) *)
+Definition window_kind_b (k : ckind) : bool :=
+  match k with KAtMost _ | KAtLeast _ | KExactlyInARow _ | KExactlyK _ => true | _ => false end.
+
+Definition inner_constraint_b (Si : sem) (c : dconstraint) : bool :=
+  window_kind_b (k_kind c) && (k_factor c <? length (s_factors Si)) &&
+  forallb (fun w => snd w <=? s_trials Si) (k_windows c).
+
 Definition simple_factor_b (fd : dfactor) : bool :=
   match f_derived fd with None => f_sustain fd =? 1 | Some _ => false end.
 
 Definition nestable_b (So Si : sem) : bool :=
   forallb simple_factor_b (s_factors So) && forallb simple_factor_b (s_factors Si) &&
-  match s_constraints So, s_constraints Si with [], [] => true | _, _ => false end &&
+  match s_constraints So with [] => true | _ => false end && forallb (inner_constraint_b Si) (s_constraints Si) &&
   forallb (fun c => (c_first c =? 0) && (0 <? c_chunk c) &&
                     forallb (fun f => f <? length (s_factors So)) (c_factors c)) (s_crossings So) &&
   forallb (fun c => (c_first c =? 0) && (0 <? c_chunk c) && (s_trials Si mod c_chunk c =? 0)) (s_crossings Si) &&
@@ -437,19 +451,25 @@ Lemma nestable_spec : forall So Si,
   nestable_b So Si = true ->
   (forall fd, In fd (s_factors So) -> f_derived fd = None /\ f_sustain fd = 1) /\
   (forall fd, In fd (s_factors Si) -> f_derived fd = None /\ f_sustain fd = 1) /\
-  s_constraints So = [] /\ s_constraints Si = [] /\
+  s_constraints So = [] /\
+  (forall k, In k (s_constraints Si) ->
+     window_kind_b (k_kind k) = true /\ k_factor k < length (s_factors Si) /\
+     forall w, In w (k_windows k) -> snd w <= s_trials Si) /\
   (forall c, In c (s_crossings So) ->
      c_first c = 0 /\ 0 < c_chunk c /\ forall f, In f (c_factors c) -> f < length (s_factors So)) /\
   (forall c, In c (s_crossings Si) -> c_first c = 0 /\ 0 < c_chunk c /\ s_trials Si mod c_chunk c = 0) /\
   0 < s_trials Si.
 Proof.
   intros So Si H. unfold nestable_b in H. rewrite !andb_true_iff in H.
-  destruct H as [[[[[H1 H2] H3] H4] H5] H6].
-  rewrite forallb_forall in H1, H2, H4, H5.
+  destruct H as [[[[[[H1 H2] H3] H3'] H4] H5] H6].
+  rewrite forallb_forall in H1, H2, H3', H4, H5.
   split; [intros fd Hfd; apply simple_factor_b_spec; apply H1; exact Hfd|].
   split; [intros fd Hfd; apply simple_factor_b_spec; apply H2; exact Hfd|].
   split; [destruct (s_constraints So); [reflexivity|discriminate]|].
-  split; [destruct (s_constraints So); [|discriminate]; destruct (s_constraints Si); [reflexivity|discriminate]|].
+  split.
+  { intros k Hk. specialize (H3' k Hk). unfold inner_constraint_b in H3'. rewrite !andb_true_iff in H3'.
+    destruct H3' as [[Ha Hb] Hc]. apply Nat.ltb_lt in Hb. rewrite forallb_forall in Hc.
+    repeat split; try assumption. intros w Hw. apply Nat.leb_le. apply Hc. exact Hw. }
   split.
   - intros c Hc. specialize (H4 c Hc). rewrite !andb_true_iff in H4. destruct H4 as [[Ha Hb] Hd].
     apply Nat.eqb_eq in Ha. apply Nat.ltb_lt in Hb. rewrite forallb_forall in Hd.
@@ -465,17 +485,86 @@ Proof.
   apply existsb_exists. exists f. split; [exact Hf | apply Nat.eqb_refl].
 Qed.
 
+(** * Inner constraints, repeated per group *)
+
+Lemma map_nth_firstn_skipn : forall {A} (row : list A) (d : A) k n,
+  k + n <= length row -> map (fun t => nth (k + t) row d) (seq 0 n) = firstn n (skipn k row).
+Proof.
+  intros A row d k n H. apply (nth_ext _ _ d d).
+  - rewrite map_length, seq_length, firstn_length, skipn_length. lia.
+  - intros i Hi. rewrite map_length, seq_length in Hi.
+    rewrite (nth_map_seq (fun t => nth (k + t) row d)) by exact Hi.
+    rewrite nth_firstn_lt by exact Hi. rewrite nth_skipn_add. reflexivity.
+Qed.
+
+Lemma slice_group : forall {A} (row : list A) K Ti a b,
+  K + Ti <= length row -> b <= Ti ->
+  slice (firstn Ti (skipn K row)) a b = slice row (K + a) (K + b).
+Proof.
+  intros A row K Ti a b HK Hb. unfold slice.
+  replace (K + b - (K + a)) with (b - a) by lia.
+  destruct (Nat.le_gt_cases b a) as [Hba|Hab].
+  - replace (b - a) with 0 by lia. reflexivity.
+  - destruct row as [|x0 row'] eqn:Erow; [cbn in HK; lia|]. rewrite <- Erow in *.
+    apply (nth_ext _ _ x0 x0).
+    + rewrite !firstn_length, !skipn_length, firstn_length, skipn_length. lia.
+    + intros i Hi. rewrite firstn_length, skipn_length, firstn_length, skipn_length in Hi.
+      rewrite !nth_firstn_lt by lia. rewrite !nth_skipn_add. rewrite nth_firstn_lt by lia.
+      rewrite nth_skipn_add. f_equal. lia.
+Qed.
+
+Lemma grp_row : forall no ni Ti g s f,
+  length s = no + ni -> f < ni ->
+  nth f (grp no Ti g s) [] = map (fun t => nth (g * Ti + t) (nth (no + f) s []) None) (seq 0 Ti).
+Proof.
+  intros no ni Ti g s f Hs Hf. unfold grp.
+  rewrite (nth_map_in _ _ f [] []) by (rewrite skipn_length; lia). rewrite nth_skipn_add. reflexivity.
+Qed.
+
+Lemma constraint_ok_repeated : forall (S1 S2 : sem) (s : tseq) (k : dconstraint) (no ni To Ti : nat),
+  length s = no + ni -> k_factor k < ni -> length (nth (no + k_factor k) s []) = To * Ti ->
+  window_kind_b (k_kind k) = true -> (forall w, In w (k_windows k) -> snd w <= Ti) ->
+  (constraint_ok S1 s (repeat_constraint no To Ti k) = true <->
+   forall g, g < To -> constraint_ok S2 (grp no Ti g s) k = true).
+Proof.
+  intros S1 S2 s k no ni To Ti Hs Hf Hlen Hkind Hw.
+  set (row := nth (no + k_factor k) s []) in *.
+  assert (Hslice : forall g w, g < To -> In w (k_windows k) ->
+            slice (nth (k_factor k) (grp no Ti g s) []) (fst w) (snd w) = slice row (g * Ti + fst w) (g * Ti + snd w)).
+  { intros g w Hg Hin. rewrite (grp_row no ni) by assumption. fold row.
+    rewrite map_nth_firstn_skipn by (rewrite Hlen; nia).
+    apply slice_group; [rewrite Hlen; nia | apply Hw; exact Hin]. }
+  assert (Hgen : forall (P : list cell -> bool),
+            forallb (fun w => P (slice row (fst w) (snd w)))
+                    (flat_map (fun g => map (fun w => (g * Ti + fst w, g * Ti + snd w)) (k_windows k)) (seq 0 To)) = true <->
+            forall g, g < To -> forallb (fun w => P (slice (nth (k_factor k) (grp no Ti g s) []) (fst w) (snd w))) (k_windows k) = true).
+  { intro P. rewrite forallb_forall. split.
+    - intros H g Hg. apply forallb_forall. intros w Hin. rewrite Hslice by assumption.
+      apply (H (g * Ti + fst w, g * Ti + snd w)). apply in_flat_map. exists g. split; [apply in_seq; lia|].
+      apply in_map_iff. exists w. auto.
+    - intros H w' Hin. apply in_flat_map in Hin. destruct Hin as [g [Hg Hin]]. apply in_seq in Hg.
+      apply in_map_iff in Hin. destruct Hin as [w [<- Hin]]. cbn [fst snd].
+      specialize (H g ltac:(lia)). rewrite forallb_forall in H. specialize (H w Hin).
+      rewrite Hslice in H by (assumption || lia). exact H. }
+  unfold constraint_ok. cbn [repeat_constraint k_kind k_factor k_level k_windows]. fold row.
+  destruct (k_kind k); try discriminate Hkind.
+  - apply (Hgen (fun cells => forallb (fun n => n <=? k0) (runs (k_level k) cells))).
+  - apply (Hgen (fun cells => forallb (fun n => k0 <=? n) (runs (k_level k) cells))).
+  - apply (Hgen (fun cells => forallb (fun n => n =? k0) (runs (k_level k) cells))).
+  - apply (Hgen (fun cells => count_level (k_level k) cells =? k0)).
+Qed.
+
 (** * [valid_b] unfolded *)
 
 Lemma valid_b_unfold : forall S s,
-  s_constraints S = [] ->
   (valid_b S s = true <->
    length s = length (s_factors S) /\
    (forall f fd, nth_error (s_factors S) f = Some fd -> factor_ok S s f fd = true) /\
-   (forall c, In c (s_crossings S) -> crossing_ok S s c = true)).
+   (forall c, In c (s_crossings S) -> crossing_ok S s c = true) /\
+   (forall k, In k (s_constraints S) -> constraint_ok S s k = true)).
 Proof.
-  intros S s Hc. unfold valid_b. rewrite Hc. cbn [forallb]. rewrite andb_true_r, !andb_true_iff.
-  rewrite Nat.eqb_eq, forallb_index_list, forallb_forall. tauto.
+  intros S s. unfold valid_b. rewrite !andb_true_iff.
+  rewrite Nat.eqb_eq, forallb_index_list, !forallb_forall. tauto.
 Qed.
 
 Lemma nest_valid_unfold : forall So Si s,
@@ -487,9 +576,10 @@ Lemma nest_valid_unfold : forall So Si s,
       factor_ok N s f (scale_factor Ti (crossed_in So f) fd) = true) /\
    (forall f fd, nth_error (s_factors Si) f = Some fd -> factor_ok N s (no + f) fd = true) /\
    (forall c, In c (s_crossings So) -> crossing_ok N s (scale_crossing Ti c) = true) /\
-   (forall c, In c (s_crossings Si) -> crossing_ok N s (shift_crossing no c) = true)).
+   (forall c, In c (s_crossings Si) -> crossing_ok N s (shift_crossing no c) = true) /\
+   (forall k, In k (s_constraints Si) -> constraint_ok N s (repeat_constraint no (s_trials So) Ti k) = true)).
 Proof.
-  intros So Si s N no ni Ti. rewrite valid_b_unfold by reflexivity.
+  intros So Si s N no ni Ti. rewrite valid_b_unfold.
   set (h := fun (i : nat) (fd : dfactor) => scale_factor Ti (crossed_in So i) fd).
   assert (HA : forall f, nth_error (map (fun p => h (fst p) (snd p)) (index_list (s_factors So))) f
                          = option_map (h f) (nth_error (s_factors So) f)).
@@ -498,9 +588,10 @@ Proof.
     by apply indexed_map_length.
   change (s_factors N) with (map (fun p => h (fst p) (snd p)) (index_list (s_factors So)) ++ s_factors Si).
   change (s_crossings N) with (map (scale_crossing Ti) (s_crossings So) ++ map (shift_crossing no) (s_crossings Si)).
+  change (s_constraints N) with (map (repeat_constraint no (s_trials So) Ti) (s_constraints Si)).
   rewrite app_length, HlenA. fold ni.
   split.
-  - intros [Hl [Hf Hc]]. split; [exact Hl|]. split; [|split; [|split]].
+  - intros [Hl [Hf [Hc Hk]]]. split; [exact Hl|]. split; [|split; [|split; [|split]]].
     + intros f fd Hfd. apply Hf. rewrite nth_error_app1.
       * rewrite HA, Hfd. reflexivity.
       * rewrite HlenA. apply nth_error_Some. congruence.
@@ -508,7 +599,8 @@ Proof.
       replace (no + f - no) with f by lia. exact Hfd.
     + intros c Hin. apply Hc. apply in_or_app. left. apply in_map. exact Hin.
     + intros c Hin. apply Hc. apply in_or_app. right. apply in_map. exact Hin.
-  - intros [Hl [Hfo [Hfi [Hco Hci]]]]. split; [exact Hl|]. split.
+    + intros k Hin. apply Hk. apply in_map. exact Hin.
+  - intros [Hl [Hfo [Hfi [Hco [Hci Hki]]]]]. split; [exact Hl|]. split; [|split].
     + intros f x Hx. destruct (Nat.lt_ge_cases f no) as [Hlt|Hge].
       * rewrite nth_error_app1 in Hx by lia. rewrite HA in Hx.
         destruct (nth_error (s_factors So) f) as [fd|] eqn:E; [|discriminate].
@@ -517,6 +609,7 @@ Proof.
         replace f with (no + (f - no)) by lia. apply Hfi. exact Hx.
     + intros c Hin. apply in_app_or in Hin. destruct Hin as [Hin|Hin]; apply in_map_iff in Hin;
         destruct Hin as [c0 [<- Hc0]]; [apply Hco | apply Hci]; exact Hc0.
+    + intros k Hin. apply in_map_iff in Hin. destruct Hin as [k0 [<- Hk0]]. apply Hki. exact Hk0.
 Qed.
 
 (** * The theorem *)
@@ -562,7 +655,9 @@ Proof.
     apply Hconst; [apply Hrange; exact Hf | eapply crossed_in_intro; eauto | exact Ht]. }
   split.
   - (* valid in the Nest normal form -> group composition *)
-    intros [Hl [Hfo [Hfi [Hco Hci]]]].
+    intros [Hl [Hfo [Hfi [Hco [Hci Hki]]]]].
+    assert (Hrowlen : forall f fd, nth_error (s_factors Si) f = Some fd -> length (nth (no + f) s []) = To * Ti).
+    { intros f fd E. apply (proj1 (Hinner f fd E) (Hfi f fd E)). }
     assert (Hconst : forall f t, f < no -> crossed_in So f = true -> t < To * Ti ->
                                  get_cell s f t = get_cell s f (t / Ti * Ti)).
     { intros f t Hf Hcr Ht. destruct (nth_error (s_factors So) f) as [fd|] eqn:E.
@@ -582,7 +677,7 @@ Proof.
       apply (proj1 (crossing_ok_scaled N So s (reps no To Ti s) c To Ti HN eq_refl HTi H0
                                        (Hcombo Hl Hconst c Hc))).
       apply Hco. exact Hc.
-    + intros g Hgt. rewrite valid_b_unfold by exact HCi. split; [|split].
+    + intros g Hgt. rewrite valid_b_unfold. split; [|split; [|split]].
       * unfold grp. rewrite map_length, skipn_length. fold ni. lia.
       * intros f fd E. destruct (HFi fd (nth_error_In _ _ E)) as [Hd Hsu].
         rewrite factor_ok_simple by exact Hd. fold Ti. rewrite Hsu.
@@ -598,9 +693,15 @@ Proof.
                         ltac:(lia) (fun g t Hg' Ht => combo_at_grp no ni Ti g s (c_factors c) t Hl Ht))).
         -- apply Hci. exact Hc.
         -- exact Hgt.
+      * intros k Hk. destruct (HCi k Hk) as [Hkind [Hkf Hkw]]. fold ni in Hkf. fold Ti in Hkw.
+        destruct (nth_error (s_factors Si) (k_factor k)) as [fd|] eqn:E;
+          [|apply nth_error_None in E; fold ni in E; lia].
+        apply (proj1 (constraint_ok_repeated N Si s k no ni To Ti Hl Hkf (Hrowlen _ fd E) Hkind Hkw)).
+        -- apply Hki. exact Hk.
+        -- exact Hgt.
   - (* group composition -> valid in the Nest normal form *)
     intros [Hl [Hlen [Hwf [Hconst [Hco Hgrp]]]]].
-    split; [exact Hl|]. split; [|split; [|split]].
+    split; [exact Hl|]. split; [|split; [|split; [|split]]].
     + intros f fd E. apply (proj2 (Houter f fd E)).
       assert (Hfn : f < no) by (apply nth_error_Some; congruence).
       split; [apply Hlen; lia|]. split; [apply Hwf; exact E|].
@@ -610,7 +711,7 @@ Proof.
       split; [apply Hlen; lia|].
       intros t Ht.
       assert (Hgt : t / Ti < To) by (apply Nat.div_lt_upper_bound; lia).
-      specialize (Hgrp (t / Ti) Hgt). rewrite valid_b_unfold in Hgrp by exact HCi.
+      specialize (Hgrp (t / Ti) Hgt). rewrite valid_b_unfold in Hgrp.
       destruct Hgrp as [_ [Hfg _]]. specialize (Hfg f fd E).
       destruct (HFi fd (nth_error_In _ _ E)) as [Hd _].
       rewrite factor_ok_simple in Hfg by exact Hd. destruct Hfg as [_ [Hw _]].
@@ -632,8 +733,12 @@ Proof.
         rewrite chunks_ok_step. rewrite HN. fold To. rewrite Hz. reflexivity.
       * apply (proj2 (crossing_ok_repeated N Si s (fun g => grp no Ti g s) c no To Ti HN eq_refl H0 Hch Hmod
                         ltac:(lia) (fun g t Hg' Ht => combo_at_grp no ni Ti g s (c_factors c) t Hl Ht))).
-        intros g Hgt. specialize (Hgrp g Hgt). rewrite valid_b_unfold in Hgrp by exact HCi.
-        destruct Hgrp as [_ [_ Hcg]]. apply Hcg. exact Hc.
+        intros g Hgt. specialize (Hgrp g Hgt). rewrite valid_b_unfold in Hgrp.
+        destruct Hgrp as [_ [_ [Hcg _]]]. apply Hcg. exact Hc.
+    + intros k Hk. destruct (HCi k Hk) as [Hkind [Hkf Hkw]]. fold ni in Hkf. fold Ti in Hkw.
+      apply (proj2 (constraint_ok_repeated N Si s k no ni To Ti Hl Hkf (Hlen (no + k_factor k) ltac:(lia)) Hkind Hkw)).
+      intros g Hgt. specialize (Hgrp g Hgt). rewrite valid_b_unfold in Hgrp.
+      destruct Hgrp as [_ [_ [_ Hkg]]]. apply Hkg. exact Hk.
 Qed.
 
 (** * Example: the guard is met by a concrete Nest, and the normal form has the expected valid set *)
@@ -665,3 +770,19 @@ Lemma ex_nest_seq_valid : valid_b (nest_sem ex_sem_outer ex_sem_inner) ex_nest_s
   grp 1 4 0 ex_nest_seq = [[Some 0; Some 1; Some 1; Some 0]] /\
   grp 1 4 1 ex_nest_seq = [[Some 1; Some 0; Some 0; Some 1]].
 Proof. repeat split. Qed.
+
+(** the same Nest with the inner block constraint AtMostKInARow(1, (B, b0)): 3 valid inner runs
+    (0101, 0110, 1010), hence 2 x 3 x 3 = 18 valid sequences; b0 may meet b0 across a group boundary *)
+Definition ex_sem_inner_c : sem :=
+  {| s_trials := 4; s_factors := s_factors ex_sem_inner; s_crossings := s_crossings ex_sem_inner;
+     s_constraints := [{| k_kind := KAtMost 1; k_factor := 0; k_level := 0; k_windows := [(0, 4)] |}] |}.
+
+Lemma ex_nestable_c : nestable_b ex_sem_outer ex_sem_inner_c = true /\
+  length (all_valid ex_sem_inner_c) = 3 /\
+  length (all_valid (nest_sem ex_sem_outer ex_sem_inner_c)) = 18 /\
+  s_constraints (nest_sem ex_sem_outer ex_sem_inner_c)
+  = [{| k_kind := KAtMost 1; k_factor := 1; k_level := 0; k_windows := [(0, 4); (4, 8)] |}] /\
+  valid_b (nest_sem ex_sem_outer ex_sem_inner_c)
+          [[Some 1; Some 1; Some 1; Some 1; Some 0; Some 0; Some 0; Some 0];
+           [Some 1; Some 0; Some 1; Some 0; Some 0; Some 1; Some 0; Some 1]] = true.
+Proof. repeat split; vm_compute; reflexivity. Qed.
